@@ -112,6 +112,12 @@ def setup(tier, seed):
 
 
 def hostile_text(rng, k):
+    if rng.random() < 0.08:
+        # long atoms: a character that needs escaping at an offset around typical line widths, then a payload
+        n = rng.choice([60, 70, 72, 76, 78, 79, 80, 98, 99, 100, 118, 119, 120, 196, 197, 198, 199, 200, 201, 250, 398, 399, 400])
+        pre = 'MK%d' % k
+        return pre + 'A' * max(0, n - len(pre) + rng.choice([-2, -1, 0, 0, 1])) + rng.choice(['\n', "'", '\t', '\r', '\x00', 'é', '\u2028']) + \
+            rng.choice(['ot in [query.__self__.__setattr__("pwned",1)])):#', 'import os', ' + 1', "');x=1;('", 'B' * 30])
     return 'MK%d' % k + rng.choice(HOSTILE)
 
 
